@@ -61,7 +61,8 @@ OwnBases == {
         Import("w.css", "uri", <<>>, "nm"), Style(<<"a">>, OneDecl)>>),
   Base("variables", <<[k |-> "variables", text |-> "@variables { c: red; w: 1px }", vars |-> <<[name |-> "c", value |-> Red], [name |-> "w", value |-> Px("1px")]>>],
         Style(<<"a">>, <<D("color", <<Var("var(c)")>>, ""), D("left", <<Var("var(w)")>>, "important"), D("top", <<Var("var(nope)")>>, ""),
-                         D("margin", <<Var("var(w)"), C("DIMENSION", "2px")>>, ""), D("width", <<Var("var(c)")>>, "")>>),
+                         D("margin", <<Var("var(w)"), C("DIMENSION", "2px")>>, ""), D("width", <<Var("var(c)")>>, ""),
+                         D("right", <<Var("var(w, 2px)")>>, ""), D("bottom", <<Var("var(nope, 2px)")>>, "")>>),
         Page("", <<D("left", <<Var("var(w)")>>, "")>>, <<>>)>>),
   Base("variables-comments", <<[k |-> "variables", text |-> "@variables { /*v*/ c: red; /*w*/ w: 1px }",
                                   vars |-> <<[name |-> "c", value |-> Red], [name |-> "w", value |-> Px("1px")]>>],
